@@ -716,7 +716,14 @@ def process_template(unit, tmpl_path, prelude_dir):
                 j += 1
             for a_ in pre:
                 unit.emit(a_ + '\n', {'k': 'tmpl', 'line': j, 'file': os.path.basename(tmpl_path)})
-            emit_item(unit, d[6:], {'ghosts': ghosts})
+            opts = {}
+            loc = d[6:]
+            mm = re.search(r'\s\[(.*)\]\s*$', loc)
+            if mm:
+                opts = dict((kv.split('=', 1) + [''])[:2] for kv in mm.group(1).split())
+                loc = loc[:mm.start()]
+            opts['ghosts'] = ghosts
+            emit_item(unit, loc, opts)
             i = j + 1
         elif d.startswith('item '):
             opts = {}
@@ -1029,11 +1036,30 @@ def emit_block(unit, loc, dlines, tmpl_where):
     if not name or not sig:
         raise Unsupported('%s: //@block needs name and sig' % tmpl_where)
     ma = _find_anchor(body, bmask, a_txt, 0)
-    hits_b = [m for m in re.compile(r'\s*'.join(re.escape(t) for t in b_txt.split())).finditer(body) if bmask[m.start()] and m.start() >= ma.end()]
-    if not hits_b:
-        raise AnchorLost('block end anchor not found: `%s`' % b_txt)
-    mb = hits_b[0]
-    blk = body[ma.start():mb.end()]
+    if b_txt == '{}':
+        # the range is everything inside the brace group that the start anchor opens (a match arm, an if body)
+        if body[ma.end() - 1] != '{':
+            raise Unsupported('%s: `{}` needs a start anchor that ends with an opening brace' % tmpl_where)
+        cb_ = match_brace(body, bmask, ma.end() - 1)
+
+        class _Span(object):
+            def __init__(self, a, b):
+                self._a, self._b = a, b
+
+            def start(self):
+                return self._a
+
+            def end(self):
+                return self._b
+        mb = _Span(cb_, cb_)
+        ma = _Span(ma.end(), ma.end())
+        blk = body[ma.start():cb_]
+    else:
+        hits_b = [m for m in re.compile(r'\s*'.join(re.escape(t) for t in b_txt.split())).finditer(body) if bmask[m.start()] and m.start() >= ma.end()]
+        if not hits_b:
+            raise AnchorLost('block end anchor not found: `%s`' % b_txt)
+        mb = hits_b[0]
+        blk = body[ma.start():mb.end()]
     for a, b in substs:
         # whitespace-insensitive match of the text to rename; an awaited expression may be renamed to a
         # parameter that stands for its (arbitrary) result (R8)
